@@ -350,6 +350,7 @@ pub fn run_check(check: &dyn Check, opt: &Options) -> i32 {
     let stop = AtomicBool::new(false);
     let agg = Mutex::new(Agg::default());
     let capped = AtomicBool::new(false);
+    let harness_panics = AtomicU64::new(0);
     let workers = check.workers().unwrap_or(opt.workers).max(1);
     println!("check {} tier={} seed={} runs={} workers={}", check.id(), opt.tier.name(), opt.seed, total, workers);
     std::thread::scope(|s| {
@@ -369,14 +370,27 @@ pub fn run_check(check: &dyn Check, opt: &Options) -> i32 {
                         break;
                     }
                     let mut tape = Tape::random(run_seed(opt.seed, check.id(), i));
-                    let out = check.run(
-                        &mut tape,
-                        &RunCtx {
-                            tier: opt.tier,
-                            index: i,
-                            detail: i < 3,
-                        },
-                    );
+                    let out = match std::panic::catch_unwind(std::panic::AssertUnwindSafe(|| {
+                        check.run(
+                            &mut tape,
+                            &RunCtx {
+                                tier: opt.tier,
+                                index: i,
+                                detail: i < 3,
+                            },
+                        )
+                    })) {
+                        Ok(o) => o,
+                        Err(p) => {
+                            // a panic of the harness itself (not of the code under
+                            // test, which is caught per operation): never a verdict
+                            let what = if p.is::<kismet_vfs::kernel::CrashSignal>() { "simulated-process kill escaped the harness (runaway step budget?)".to_string() } else { crate::common::LAST_PANIC.with(|l| l.borrow().clone()).unwrap_or_else(|| "panic".to_string()) };
+                            eprintln!("harness error: run {} of {} panicked in the harness: {}", i, check.id(), what);
+                            harness_panics.fetch_add(1, Ordering::Relaxed);
+                            stop.store(true, Ordering::Relaxed);
+                            break;
+                        }
+                    };
                     local.evals += 1;
                     if out.nontrivial {
                         local.nontrivial += 1;
@@ -561,6 +575,9 @@ pub fn run_check(check: &dyn Check, opt: &Options) -> i32 {
         wall,
         if capped.load(Ordering::Relaxed) { " (wall cap hit)" } else { "" }
     );
+    if harness_panics.load(Ordering::Relaxed) > 0 {
+        return 2;
+    }
     if a.evals == 0 || a.sigs.len() < 2 {
         eprintln!("harness error: check {} explored nothing non-trivial", check.id());
         return if exit == 1 { 1 } else { 2 };
